@@ -199,6 +199,27 @@ def bounded(tier, seed, procs):
         if r3 != ("val", exp_c):
             bn.fail(Failure("counts", f"what=cseflops-distinct-objects expr={e!r}", dict(kind="cseflops2", expr=trees.src(e)),
                             expected=exp_c, actual=outcome.describe(r3), functions=["CSEAwareFlopCounter.map_common_subexpression"]))
+    # histories: the analyses are pure functions of the expression -- equal-but-differently-typed expressions queried one after the other,
+    # the same expression queried repeatedly, one counter object reused
+    x, y = trees.X, trees.Y
+    twins = [(p.Sum((4, 4.0)), p.Sum((4, 4))), (p.Sum((x, 1, 1.0)), p.Sum((x, 1, 1))), (p.Product((x, True, 1)), p.Product((x, 1, 1))),
+             (p.Quotient(p.Power(x, 2), p.Sum((y, 2))), p.Quotient(p.Power(x, 2.0), p.Sum((y, 2)))), (p.Sum((x, y)), p.Sum((x, y))), (p.Power(x, 2), p.Power(x, 2.0))]
+    for u, v in twins:
+        for order in ((u, v, u), (v, u, v)):
+            got = outcome.run(lambda: [get_num_nodes(t) for t in order])
+            want = [len(subobjects(t, set())) for t in order]
+            bn.case(("nodes-history", repr(order)), nontrivial=True, sample=dict(history=[repr(t) for t in order]))
+            if got != ("val", want):
+                bn.fail(Failure("counts", f"what=nodes-history history={[repr(t) for t in order]}", dict(kind="nodes-hist", history=[trees.src(t) for t in order]),
+                                expected=want, actual=outcome.describe(got), functions=["get_num_nodes", "NodeCountMapper"]))
+    fc, cfc = FlopCounter(), CSEAwareFlopCounter()
+    seq = [e for e in dom if isinstance(e, p.Expression) and not _unhashable(e) and _flop_fragment(e)][:40]
+    for e in seq + seq[::-1]:
+        r = outcome.run(lambda: fc(e))
+        bn.case(("flops-reused", repr(e)))
+        if r != ("val", K.Flops(e)):
+            bn.fail(Failure("counts", f"what=flops-reused-counter expr={e!r}", dict(kind="flops-hist", expr=trees.src(e)), expected=K.Flops(e), actual=outcome.describe(r),
+                            functions=["FlopCounterBase"]))
     return [bd, br, bn]
 
 
